@@ -370,8 +370,8 @@ def h2_scenario(seed, runtime, n_steps=18):
 
 
 def h2_reset_during_upload(runtime):
-    """A request whose stream the server resets while its body is still being sent - the RST_STREAM being read by *another* request that
-    holds the read lock - fails with RemoteProtocolError, and everything it held on the connection is given back: its stream is no longer
+    """A request whose stream the server resets while its body is still being sent (paused between two chunks, a second request queued
+    behind it) fails with RemoteProtocolError, and everything it held on the connection is given back: its stream is no longer
     registered, so its slot is free and the connection can go idle once the others are done.  -> dict of what was observed"""
     out = {"outcome_a": None, "outcome_b": None, "registered_after": None, "state_after": None}
     clock = servers.Clock(0.0)
@@ -413,6 +413,16 @@ def h2_reset_during_upload(runtime):
                 await _settle(400)
                 tg.start_soon(b)
                 await _settle(400)
+                # wait (bounded) until the server has seen the upload's head (the GET may still be waiting for a stream slot: the client
+                # holds to one stream until it has read the server's SETTINGS)
+                for _ in range(50):
+                    if len(srv.c.streams) >= 1:
+                        break
+                    await _settle(100)
+                else:
+                    out["inconclusive"] = True
+                    tg.cancel_scope.cancel()
+                    return
                 # the stream of the upload is the lowest id the server has seen headers for but no END_STREAM; reset it.  `b` is parked
                 # in the network read and will be the one to read the RST_STREAM
                 up = min(srv.c.streams) if srv.c.streams else None
@@ -701,6 +711,9 @@ def run(rec, driver, rng, n_h2, n_h1, label):
         for rt in ("asyncio", "trio"):
             o = h2_reset_during_upload(rt)
             rec.evals += 1
+            if o.get("inconclusive"):
+                rec.dist["life-h2:reset-during-upload:inconclusive"] += 1
+                continue
             rec.dist[f"life-h2:reset-during-upload:{o.get('outcome_a')}"] += 1
             if o.get("error") or o.get("outcome_a") != "RemoteProtocolError" or o.get("registered_after") != [] or o.get("state_after") != "IDLE":
                 bad += 1
